@@ -11,6 +11,8 @@ from .rustscan import code_mask, match_close, depth_at, find_code
 DROP_ATTRS = (
     r"#\[inline(\([a-z]+\))?\]", r"#\[track_caller\]", r"#\[cold\]", r"#\[must_use(\s*=.*)?\]",
     r"#\[allow\(.*\)\]", r"#\[doc.*\]", r"#\[cfg_attr\(docsrs.*\)\]", r"#\[derive\((?:Debug|Default|, )+\)\]",
+    r"#\[cfg_attr\(feature = \"internal_debug\", derive\(Debug\)\)\]",
+    r"#\[cfg_attr\(feature = \"unstable_machinery_serde\", derive\(serde::Serialize\)\)\]",
 )
 KEEP_ATTRS = (r"#\[derive\(.*\)\]", r"#\[repr\(.*\)\]")
 
